@@ -14,13 +14,13 @@ CLAIMED = {
  "C18": ("proof", "history independence: Lean theorems over the history machine runH under H-iso (regen_fresh for variants with output, idempotence, diff-after-gen, read-only; witness for the no-injector case D11) + random histories on the real binary compared step by step", "5/C18"),
  "C20": ("proof", "front-end totality: regenerated tables of copyAST node kinds and zeroValue type kinds closed by decide (every go/ast node kind has a case; every typed basic kind and every underlying kind has a zero value) + ~360 type-correct spellings (marker arguments, struct shapes, provider-set variable forms, result kinds, injector shapes) run through the real gen, check and show (no panic; positioned diagnostic)", "5/C20"),
  "C12": ("proof", "field selection: Lean theorems over checkField/allFields/structProviderArgs/fieldsOfArgs (exact names, declaration/written order, prevented and unknown rejected, duplicate types) + unit-tier streams through the real processStructProvider/processFieldsOf + e2e run-time inspection of constructed structs and field-pointer aliasing", "5/C12"),
- "C13": ("proof", "value whitelist: Lean theorem that an accepted expression tree contains no non-conversion call, receive or function literal, over the whitelist regenerated from processValue + per-expression e2e over 54 fixed forms and random nested expressions with the unsafe part at any position (verdict vs model and vs oracle, value = home evaluation, same value on every call, no function ran)", "5/C13"),
+ "C13": ("proof", "value whitelist and accessibility: Lean model of accessibleFrom (accepted iff every identifier and positionally set field is nameable from the target package; first offending node reported) tied by the access stream; copyAST completeness over expression kinds (regenerated tables); Lean theorem that an accepted expression tree contains no non-conversion call, receive or function literal, over the whitelist regenerated from processValue + per-expression e2e over 54 fixed forms and random nested expressions with the unsafe part at any position (verdict vs model and vs oracle, value = home evaluation, same value on every call, no function ran)", "5/C13"),
  "C15": ("proof", "copied declarations: regenerated copyAST field tables closed by decide + Lean model of the renaming pass (WireV.renameOccs: totality, consistency per object, freshness, injectivity) tied to the real rewritePkgRefs by a correspondence stream over random type-checked packages with a binding oracle (copies re-type-checked, identifier-by-identifier entity comparison) + declaration corpus and 25x8 collision matrix copied, compiled, vetted and executed against the originals", "5/C15"),
  "C16": ("proof", "determinism/layout: Lean theorems on vendor stripping (canonical form for every prefix, idempotence) and permutation-invariance of the sorted import block + unit-tier path streams + byte-equality across repeats, locations, invocation forms and module/GOPATH/vendor layouts", "5/C16"),
  "C01": ("proof", "compilable output: IR-level well-formedness theorems (definition before use, argument types = binding-resolved parameter types, one call per constructed type, every local used, binder distinctness, declared signature, zero-value and copy totality, the internal-package import rule) + every accepted generated package compiled with go build and each injector assigned to a variable of its declared function type + unusual spellings accepted by wire compiled + internal-package layouts + importableFrom/unvendor correspondence stream", "5/C01"),
  "C19": ("proof", "check/show: Lean theorems over the gather machine (termination, partition, inputs = leaf requirements, merged groups, order freedom) + regenerated call facts (Load and inject run the same stages) + real gather through an overlay of cmd/wire + declarative grouping oracle (inputs = unprovided types reachable through the unique sources) + check-vs-gen exit/error classes and parsed `wire show` output on generated programs", "5/C19"),
- "C11": ("proof", "binding aliasing in map and planner: Lean theorems + unit-tier correspondence + e2e run-time identity traces", "5/C11"),
- "C03": ("proof", "error-branch structure and unwinding: Lean theorems over the emission/execution model for every call list and fault plan + IR of every generated injector + run-time traces under every single-failure plan", "5/C03"),
+ "C11": ("proof", "binding aliasing in map and planner: Lean theorems + unit-tier correspondence + e2e run-time identity traces; front half: Lean model of processBind / processInterfaceValue with the method-set rule (value/pointer receivers, promotion, shadowing, ambiguity), acceptance characterised exactly, tied by the bind stream (real functions on type-checked random declarations) and the Bind matrix under three import forms", "5/C11"),
+ "C03": ("proof", "zero-value literals per type kind (regenerated zeroValue tables, zero_basic_right / zero_cases_right); error-branch structure and unwinding: Lean theorems over the emission/execution model for every call list and fault plan + IR of every generated injector + run-time traces under every single-failure plan", "5/C03"),
  "C04": ("proof", "aggregated cleanup: Lean theorems over the emission/execution model + IR closure bodies + run-time traces", "5/C04"),
  "C09": ("proof", "signature rules: Lean theorems over funcOutput/dupParam/sigErrors models + exhaustive correspondence over result-list shapes", "5/C09"),
 }
